@@ -388,7 +388,7 @@ class Stream(object):
         '''Set up the content encoding decompressor.'''
         encoding = response.fields.get('Content-Encoding', '').lower()
 
-        if encoding == 'gzip':
+        if encoding in ('gzip', 'x-gzip'):
             self._decompressor = wpull.decompression.GzipDecompressor()
         elif encoding == 'deflate':
             self._decompressor = wpull.decompression.DeflateDecompressor()
